@@ -512,4 +512,31 @@ theorem mem_stringMembers (t : Members) (k s : Bytes) (h : (k, Json.leaf (.str s
   rw [leavesMembers_ofList_filter]
   exact ⟨(k, .leaf (.str s)), h, rfl, by simp [leaves]⟩
 
+/-! ### the longest string value -/
+
+mutual
+  theorem longJson_false : ∀ (j : Json), longJson j = false → ∀ x ∈ leaves j, x.2.tooLong = false
+    | .leaf v, h, x, hx => by
+      simp only [leaves, List.mem_singleton] at hx
+      subst hx; simpa [longJson] using h
+    | .arr xs, h, x, hx => longElems_false xs 0 (by simpa [longJson] using h) x (by simpa [leaves] using hx)
+    | .obj ms, h, x, hx => longMembers_false ms (by simpa [longJson] using h) x (by simpa [leaves] using hx)
+  theorem longElems_false : ∀ (xs : Elems) (i : Nat), longElems xs = false → ∀ x ∈ leavesElems i xs, x.2.tooLong = false
+    | .nil, _, _, x, hx => by simp [leavesElems] at hx
+    | .cons y ys, i, h, x, hx => by
+      simp only [longElems, Bool.or_eq_false_iff] at h
+      simp only [leavesElems, List.mem_append, List.mem_map] at hx
+      rcases hx with ⟨z, hz, rfl⟩ | hx
+      · exact longJson_false y h.1 z hz
+      · exact longElems_false ys (i + 1) h.2 x hx
+  theorem longMembers_false : ∀ (ms : Members), longMembers ms = false → ∀ x ∈ leavesMembers ms, x.2.tooLong = false
+    | .nil, _, x, hx => by simp [leavesMembers] at hx
+    | .cons k v ms, h, x, hx => by
+      simp only [longMembers, Bool.or_eq_false_iff] at h
+      simp only [leavesMembers, List.mem_append, List.mem_map] at hx
+      rcases hx with ⟨z, hz, rfl⟩ | hx
+      · exact longJson_false v h.1 z hz
+      · exact longMembers_false ms h.2 x hx
+end
+
 end SigModel.Lemmas.C16Flatten
